@@ -1,5 +1,8 @@
 /* C06 - decompression of arbitrary bytes is safe, terminates and never falsely succeeds. */
 #include "mutants.h"
+#define nfail se_nfail
+#include "stream_explore.h"
+#undef nfail
 
 static uint8_t *wbuf;
 static uint64_t seed_ctr, seed_every;
@@ -290,6 +293,84 @@ int main(int argc, char **argv)
 				}
 			}
 		}
+	}
+	if (!v_part || !strcmp(v_part, "explore")) {
+		/* EXPLORE on invalid candidates: ALL call histories over the chunk alphabets for a set of rejected byte strings (first-order
+		 * mutants of short seeds): never a completion, always termination, no fault, from every reachable state */
+		static struct { uint8_t b[80]; size_t n; int mode; char d[160]; } cand[64];
+		int nc = 0;
+		{
+			/* seeds: fixed block with a match, stored block, dynamic block; each in raw / gzip / zlib; mutants: bit flips at a stride + truncations */
+			uint8_t body[64], x[64];
+			struct bw w;
+			struct tok t[4] = { { 0, 'a', 0 }, { 0, 'b', 0 }, { 6, 0, 2 }, { 0, 'c', 0 } };
+			static const int modes[3] = { ISAL_DEFLATE, ISAL_GZIP, ISAL_ZLIB };
+			for (int sd = 0; sd < 3; sd++) {
+				bw_init(&w, body, sizeof body);
+				size_t xl = 0;
+				if (sd == 0) { gen_fixed(&w, 1, t, 4); memcpy(x, "abababababc", 11); x[8] = 'c'; xl = 9; memcpy(x, "ab", 2); for (int i = 0; i < 6; i++) x[2 + i] = x[i]; x[8] = 'c'; }
+				else if (sd == 1) { gen_stored(&w, 1, (const uint8_t *)"stored!", 7, 0); memcpy(x, "stored!", 7); xl = 7; }
+				else {
+					uint8_t ll[288] = { 0 }, dl[32] = { 0 };
+					ll['a'] = 2; ll['b'] = 2; ll[256] = 2; ll[260] = 2; dl[1] = 1; dl[2] = 1;
+					struct tok t2[3] = { { 0, 'a', 0 }, { 0, 'b', 0 }, { 6, 0, 2 } };
+					gen_dynamic(&w, 1, ll, 261, dl, 3, 1, t2, 3);
+					memcpy(x, "ab", 2); for (int i = 0; i < 6; i++) x[2 + i] = x[i]; xl = 8;
+				}
+				for (int mi = 0; mi < 3; mi++) {
+					uint8_t s[96];
+					size_t te, wl = wrap_stream(modes[mi], body, bw_bytes(&w), w.bit, x, xl, NULL, s, &te);
+					for (size_t p = (sd + mi) % 3; p < wl && nc < 60; p += 5) {
+						memcpy(cand[nc].b, s, wl);
+						cand[nc].b[p] ^= (uint8_t)(1 << ((p + sd) % 8));
+						cand[nc].n = wl; cand[nc].mode = modes[mi];
+						snprintf(cand[nc].d, sizeof cand[nc].d, "seed%d mode=%s bitflip@%zu", sd, cf_name[modes[mi]], p);
+						nc++;
+					}
+					if (nc < 62) {
+						memcpy(cand[nc].b, s, wl);
+						cand[nc].n = wl - 3; cand[nc].mode = modes[mi];
+						snprintf(cand[nc].d, sizeof cand[nc].d, "seed%d mode=%s truncated-by-3", sd, cf_name[modes[mi]]);
+						nc++;
+					}
+				}
+			}
+		}
+		IST = g_persist(sizeof *IST, G_END);
+		g_canary_span = 256;
+		static uint8_t refout[4096];
+		uint64_t unit = 0;
+		for (int ci = 0; ci < nc; ci++)
+			for (int cpu = 0; cpu < 3; cpu++) {
+				if (!v_mine(unit++))
+					continue;
+				if (v_deadline_hit())
+					break;
+				struct ri_opts o;
+				crc_flag_to_ref(cand[ci].mode, &o);
+				MR.out = refout; MR.out_cap = sizeof refout;
+				ref_inflate(cand[ci].b, cand[ci].n, &o, &MR);
+				if (MR.verdict == RI_VALID)
+					continue; /* benign mutation: covered as a valid stream elsewhere */
+				IS = cand[ci].b; ISLEN = cand[ci].n; ITRUE_END = 0; IX = refout; IXLEN = MR.out_len; ICRC = cand[ci].mode; IHDRLEN = 0;
+				I_INVALID = 1;
+				cpu_set_level(m_cpus[cpu]);
+				snprintf(ctxdesc, sizeof ctxdesc, "invalid-candidate{%s} reference=%s cpu=%s", cand[ci].d, MR.verdict == RI_NEED_INPUT ? "truncated" : ri_class_name(MR.cls), cpu_level_name[m_cpus[cpu]]);
+				g_strict_free = 1;
+				inf_reset();
+				struct ex_stats st = { 0 };
+				ex_run(&inf_model, &st, v_thorough ? 2000000 : 300000);
+				g_strict_free = 0;
+				I_INVALID = 0;
+				v_count("explored_invalid_graphs", 1);
+				v_count("explored_states", st.states);
+				v_count("explored_transitions", st.transitions);
+				v_eval_n(st.transitions);
+				if (st.capped)
+					v_not_exhaustive("an invalid-candidate graph was capped");
+				v_nontrivial(v_hash(ctxdesc, strlen(ctxdesc), 3));
+			}
+		nfail += se_nfail;
 	}
 	if (!v_part || !strcmp(v_part, "closure")) {
 		seed_every = v_thorough ? 1 : 2;
